@@ -760,6 +760,159 @@ pub fn run(ctx: &Ctx) -> Result<Evidence, String> {
         acc.evaluations += checks;
     }
 
+    // (b7) extreme inputs in the history: a thread evaluates probe queries on small documents,
+    // then something extreme (documents 1100 / 2500 levels deep with a wide bottom, a 300000
+    // element array, a query of 20000 segments, 300-member objects under ==, a 60000 character
+    // name), then the probes again - guards, pools and fall-back paths that an extreme input
+    // switched on must not change what ordinary inputs give afterwards
+    {
+        let probes: Vec<(String, Value)> = vec![
+            ("$..[0]".into(), json!([[1, 2], [3, 4]])),
+            ("$..k".into(), json!({"a": {"k": 1, "x": {"k": 2, "y": [{"k": 3}]}}, "b": {"k": 4}})),
+            ("$..*".into(), json!({"b": [1, {"a": 2}], "a": [[3], 4]})),
+            ("$[?@.a == $.r]".into(), json!({"r": {"x": 1}, "p": {"a": {"x": 1}}, "q": {"a": {"x": 2}}})),
+            ("$.a[::-2]".into(), json!({"a": [0, 1, 2, 3, 4, 5, 6]})),
+            ("$[?length(@.s) == 3 && count(@.l[*]) == 2]".into(), json!([{"s": "abc", "l": [1, 2]}, {"s": "ab", "l": [1, 2]}])),
+            ("$['a','b'].c".into(), json!({"a": {"c": 1}, "b": {"c": 2}})),
+            ("$..[?@.k > 1].k".into(), json!([{"k": 1}, {"k": 2, "z": [{"k": 3}]}])),
+        ];
+        let outcome: Result<Option<(String, String, Value, Value)>, String> = std::thread::scope(|sc| {
+            let spawned = std::thread::Builder::new().stack_size(256 << 20).spawn_scoped(sc, || -> Option<(String, String, Value, Value)> {
+                let first: Vec<Value> = probes.iter().map(|(q, d)| signature(q, d)).collect();
+                let deep = |n: usize, wide: usize| -> Value {
+                    let mut v = Value::Array((0..wide).map(|_| json!([])).collect());
+                    for i in 0..n {
+                        v = if i % 2 == 0 { Value::Array(vec![v]) } else { json!({ "k": v }) };
+                    }
+                    v
+                };
+                let big = Value::Array((0..300_000).map(|i| json!(i)).collect());
+                let long_q = format!("$[?@.zz]{}", ".a".repeat(20_000));
+                let obj = Value::Object((0..300).map(|i| (format!("m{:03}", i), json!(i))).collect());
+                let long_name = "n".repeat(60_000);
+                let extremes: Vec<(&str, Box<dyn Fn() + Sync + '_>)> = vec![
+                    ("a document 1100 levels deep with 1200 empty arrays at the bottom", Box::new(|| { let d = deep(1100, 1200); for q in ["$..[0]", "$..k", "$..*"] { let _ = libapi::query_with_path(q, &d); } std::mem::forget(d); })),
+                    ("documents with 1200 sibling containers at depths 127..2049 (round-number thresholds)", Box::new(|| {
+                        for depth in [127usize, 128, 129, 255, 256, 257, 511, 512, 513, 999, 1000, 1001, 1023, 1024, 1025, 2047, 2048, 2049] {
+                            let mut v = Value::Array((0..1200).map(|i| if i % 2 == 0 { json!([]) } else { json!({}) }).collect());
+                            for _ in 0..depth {
+                                v = Value::Array(vec![v]);
+                            }
+                            for q in ["$..[0]", "$..k"] {
+                                let _ = libapi::query_with_path(q, &v);
+                            }
+                            std::mem::forget(v);
+                        }
+                    })),
+                    ("filters nested 127..2100 parentheses deep around an inner filter over 3000 elements", Box::new(|| {
+                        let d = json!([(0..3000).collect::<Vec<i32>>()]);
+                        for depth in [127usize, 128, 129, 255, 256, 257, 511, 512, 513, 1023, 1024, 1025, 2047, 2048, 2049, 2100] {
+                            let q = format!("$[?{}@[?@ > 0]{}]", "(".repeat(depth), ")".repeat(depth));
+                            let _ = libapi::query_with_path(&q, &d);
+                            let q = format!("$[?{}@[?@ > 0]{}]", "!(".repeat(depth), ")".repeat(depth));
+                            let _ = libapi::query_with_path(&q, &d);
+                        }
+                    })),
+                    ("a document 2500 levels deep", Box::new(|| { let d = deep(2500, 3); for q in ["$..[0]", "$..k"] { let _ = libapi::query_with_path(q, &d); } std::mem::forget(d); })),
+                    ("a 300000 element array", Box::new(|| { for q in ["$[*]", "$[::-3]", "$[?@ > 299990]", "$..[-1]"] { let _ = libapi::query_with_path(q, &big); } })),
+                    ("a query of 20000 segments", Box::new(|| { let _ = libapi::query_with_path(&long_q, &json!([{"a": 1}])); })),
+                    ("300-member objects under ==", Box::new(|| { let d = json!({"x": obj.clone(), "y": [obj.clone(), obj.clone()]}); let _ = libapi::query_with_path("$.y[?@ == $.x]", &d); })),
+                    ("a 60000 character member name", Box::new(|| { let d = Value::Object(vec![(long_name.clone(), json!([1]))].into_iter().collect()); let _ = libapi::query_with_path("$..*", &d); let _ = libapi::query_with_path(&format!("$['{}'][0]", long_name), &d); })),
+                ];
+                // every extreme input on a thread of its own (per-thread state an earlier extreme
+                // left behind would shift the thresholds the next one is aimed at)
+                for (what, run) in &extremes {
+                    let bad = std::thread::scope(|s2| {
+                        std::thread::Builder::new()
+                            .stack_size(256 << 20)
+                            .spawn_scoped(s2, || {
+                                let before: Vec<Value> = probes.iter().map(|(q, d)| signature(q, d)).collect();
+                                run();
+                                for (pi, (q, d)) in probes.iter().enumerate() {
+                                    let now = signature(q, d);
+                                    if now != before[pi] || now != first[pi] {
+                                        return Some((what.to_string(), q.clone(), first[pi].clone(), now));
+                                    }
+                                }
+                                None
+                            })
+                            .ok()
+                            .and_then(|h| h.join().ok())
+                            .flatten()
+                    });
+                    if bad.is_some() {
+                        return bad;
+                    }
+                }
+                None
+            });
+            match spawned {
+                Ok(h) => h.join().map_err(|_| "panicked".to_string()),
+                Err(e) => Err(e.to_string()),
+            }
+        });
+        match outcome {
+            Ok(Some((what, q, was, now))) => ctx.violate(
+                &format!("after {} had been evaluated on the same thread, {:?} on a small document no longer returns what it returned before", what, q),
+                json!({"kind":"history","query": q, "extreme_input_before": what, "first": was, "now": now}),
+            ),
+            Ok(None) => acc.count("extreme_input_history_probe_rounds", 8),
+            Err(e) => ctx.add_inconclusive(&format!("extreme-input history thread failed: {}", e).chars().take(100).collect::<String>(), 1),
+        }
+    }
+
+    // (b8) many short-lived threads (several generations of 16, so that whatever the library
+    // hands out per thread - lanes, slots, ids - wraps around), each evaluating name selectors
+    // spelled with the optional escapes \/ and \\ that normalise to different names
+    {
+        let doc: Value = json!({"x/y": {"a/b": 1, "x/y": 5, "p\\q": 9}, "a/b": 7, "p\\q": {"r/s": 2, "a/b": 3}});
+        let qs = ["$['x\\/y']['a\\/b']", "$['p\\\\q']['r\\/s']", "$['a\\/b']", "$['x\\/y']['x\\/y']", "$['p\\\\q']['a\\/b']", "$..['a\\/b']", "$['x\\/y']['p\\\\q']"];
+        let parsed_q: Vec<JpQuery> = qs.iter().filter_map(|q| libapi::parse(q).ok().and_then(|r| r.ok())).collect();
+        if parsed_q.len() != qs.len() {
+            return Err("a C12 escaped-name query does not parse".into());
+        }
+        let expected: Vec<Value> = qs.iter().map(|q| signature(q, &doc)).collect();
+        let generations = ctx.tier.pick(5, 40);
+        let per = ctx.tier.pick(3000, 20_000);
+        let done = AtomicU64::new(0);
+        // 40 threads per generation: more live threads than a table of 32 (or 16, or 8) per-thread
+        // slots has entries, so that live threads share one
+        const LIVE: usize = 40;
+        for g in 0..generations {
+            let barrier = Barrier::new(LIVE);
+            std::thread::scope(|s| {
+                for t in 0..LIVE {
+                    let (doc, qs, parsed_q, expected, barrier, done) = (&doc, &qs, &parsed_q, &expected, &barrier, &done);
+                    s.spawn(move || {
+                        barrier.wait();
+                        for round in 0..per {
+                            let qi = (round + t * 3 + g) % qs.len();
+                            let got = if round % 2 == 0 {
+                                signature(qs[qi], doc)
+                            } else {
+                                match libapi::process(&parsed_q[qi], doc) {
+                                    LibOutcome::Ok(ns) => json!({"ok": ns.iter().map(|n| n.1.clone()).collect::<Vec<_>>(), "values": expected[qi]["values"].clone()}),
+                                    o => json!({"err": o.brief()}),
+                                }
+                            };
+                            if got["ok"] != expected[qi]["ok"] || (round % 2 == 0 && got != expected[qi]) {
+                                ctx.violate(
+                                    &format!("generation {} of {} threads alive at once: {:?} returns {} instead of {}", g, LIVE, qs[qi], got["ok"], expected[qi]["ok"]),
+                                    json!({"kind":"schedule","query": qs[qi], "threads_started_so_far": (g + 1) * LIVE, "document": doc}),
+                                );
+                                return;
+                            }
+                            done.fetch_add(1, Ordering::Relaxed);
+                        }
+                    });
+                }
+            });
+        }
+        acc.count("short_lived_thread_generations", generations as u64);
+        acc.count("escaped_name_evaluations_across_generations", done.load(Ordering::Relaxed));
+        acc.evaluations += done.load(Ordering::Relaxed);
+    }
+
     // (c) schedules: threads share one parsed query and one document (mode A) or the document
     // only (mode B); start on a barrier; seeded yields injected in the H1 hook
     let tick = AtomicU64::new(0);
